@@ -17,46 +17,31 @@ NOT_DECIDED = "heapq's own correctness (trusted); behaviour of user-defined Even
 
 
 def order_preserving_list(fl, value, node, is_source):
-    """value (at node) is a list built from a source sequence in the source's order."""
-    v = value
-    if isinstance(v, ast.Name):
-        name = v.id
-        defs = fl.defs_at(node, name)
-        if len(defs) != 1:
-            return False, f"{name} has {len(defs)} definitions"
-        d = next(iter(defs))
-        how = fl.def_how(d, name)
-        if how[0] != "assign":
-            return False, "not a plain assignment"
-        init = how[1]
-        if isinstance(init, ast.List) and not init.elts:
-            # built by appends inside a for over the source
-            ok_any = False
-            for n in fl.cfg.nodes:
-                for e in fl.cfg.node_exprs(n):
-                    for p, m, c in mutating_calls(e):
-                        if p == name:
-                            if m != "append":
-                                return False, f"{name}.{m}() disturbs the order"
-                            loops = [t for t, lab in fl.cfg.edges_dominating(n) if t.kind == "for" and lab is True]
-                            if not loops or not is_source(loops[-1].stmt.iter):
-                                return False, f"append to {name} not inside a loop over the source in source order"
-                            ok_any = True
-            # any reassignment / sort between?
-            for n in fl.cfg.nodes:
-                if n is not d and name in fl._defs.get(n, {}):
-                    return False, f"{name} is rebound"
-            return ok_any, "built by append in source order"
-        if isinstance(init, ast.ListComp) and len(init.generators) == 1 and is_source(init.generators[0].iter) and not init.generators[0].ifs:
-            return True, "comprehension over the source"
-        if is_source(init):
-            return True, "the source itself"
-        if isinstance(init, ast.Call) and call_name(init) == "list" and init.args and is_source(init.args[0]):
-            return True, "list(source)"
-        return False, f"initialised from {src(init)}"
-    if isinstance(v, ast.ListComp) and len(v.generators) == 1 and is_source(v.generators[0].iter) and not v.generators[0].ifs:
-        return True, "comprehension over the source"
-    return False, f"value is {src(v)}"
+    """value (at node) is a list built from a source sequence in the source's order (comprehension, append loop - which the
+    expansion normalises to a comprehension -, the source itself or list(source)); no filter, no re-ordering."""
+    if isinstance(value, ast.Name):
+        for n in fl.cfg.nodes:
+            for e in fl.cfg.node_exprs(n):
+                for p, m, c in mutating_calls(e):
+                    if p == value.id and m != "append":
+                        return False, f"{value.id}.{m}() disturbs the order"
+    v = fl.expand(value, node)
+    while isinstance(v, ast.Call) and call_name(v) in ("list", "tuple") and v.args:
+        v = v.args[0]
+    if isinstance(v, ast.Call) and call_name(v) in ("sorted", "reversed"):
+        return False, f"{call_name(v)}() re-orders the entries"
+    if isinstance(v, ast.ListComp):
+        if len(v.generators) != 1:
+            return False, "nested comprehension"
+        g = v.generators[0]
+        if g.ifs:
+            return False, "entries are filtered"
+        if not is_source(g.iter):
+            return False, f"iterates {src(g.iter, 40)}, not the source in its own order"
+        return True, "one entry per source entry, in source order"
+    if is_source(v):
+        return True, "the source itself"
+    return False, f"value is {src(v, 60)}"
 
 
 def rule_heap_discipline(ck, rid="C11.R1"):
